@@ -271,7 +271,15 @@ def run_case(case):
                     lm = b.parts[-1].module if case["spec"]["t"] == "composite" else b.module
                     sg = lm._transform if last["t"] == "logit" else lm._transforms[0]
                     R_ = float(math.log((1 - sg.eps) / sg.eps) / float(sg.temperature))
-                    clamp_allow = clamp_allow + float(base_cdf_z(np.array([-R_]))[0]) + 1.0 - float(base_cdf_z(np.array([R_]))[0])
+                    Rlo, Rhi = -R_, R_
+                    if last["t"] == "compositecdf":
+                        # the sigmoid's clamp is applied BEFORE the inner CDF: the reachable range is logit(cdf([eps, 1 - eps])), which
+                        # a steep first or last bin (slope 9: cdf(eps) = 9e-6) pulls in from +-19.7 to +-16.6 at temperature 0.7
+                        with torch.no_grad():
+                            yy_ = lm(torch.tensor([[-1e4], [1e4]]), None)[0][:, 0]
+                        if bool(torch.isfinite(yy_).all()):
+                            Rlo, Rhi = max(Rlo, float(yy_.min())), min(Rhi, float(yy_.max()))
+                    clamp_allow = clamp_allow + float(base_cdf_z(np.array([Rlo]))[0]) + 1.0 - float(base_cdf_z(np.array([Rhi]))[0])
                 except Exception:
                     pass
 
@@ -304,7 +312,7 @@ def run_case(case):
                     raise
                 if not np.isfinite(v) or e > 1e-5 or edge > 1e-9:
                     continue
-                if v < 1 - (5e-5 + 10 * e + clamp_allow) and clamp_allow == 0.0:
+                if v < 1 - (5e-5 + 10 * e + clamp_allow):
                     # mass seems to be missing: before believing it, look for spikes narrower than every panel.  T is monotone, so
                     # the base mass between two abscissae is known (aim only); panels whose quadrature falls short of it by more
                     # than 1e-6 are bisected until the quadrature sees what is there.  A density that really is too small keeps
